@@ -19,6 +19,7 @@ import (
 	"path/filepath"
 	"strings"
 	"sync/atomic"
+	"time"
 
 	saml2 "github.com/russellhaering/gosaml2"
 	"github.com/russellhaering/gosaml2/types"
@@ -455,6 +456,63 @@ func runC09(c *mon.Ctx) {
 		}
 		doc := unsignedResponseWith(w, sim.EncryptedAssertionRaw(spec, b64(bytes.Repeat([]byte{1}, 48)), b64(d)))
 		c09Call(cs, cfgs[0].mk(w), "full", b64([]byte(doc)))
+	}
+
+	// ---- the same rejected message many times over in one process: every call comes back (a call that is parked for
+	// good on a channel or lock is not "returning normally") ----
+	reps := []struct {
+		name string
+		spec sim.EncSpec
+	}{
+		{"oaep-wrapped-20-byte-key", sim.EncSpec{DataAlg: sim.AES128GCM, KeyAlg: sim.RSAOAEP, To: w.SPEnc, SymLen: 20}},
+		{"oaep-wrapped-1-byte-key", sim.EncSpec{DataAlg: sim.AES256CBC, KeyAlg: sim.RSAOAEP11, To: w.SPEnc, SymLen: 1, Digest: sim.S(sim.DigSHA256)}},
+		{"pkcs1-wrapped-33-byte-key", sim.EncSpec{DataAlg: sim.AES128CBC, KeyAlg: sim.RSA15, To: w.SPEnc, SymLen: 33}},
+		{"oaep-wrapped-for-another-key", sim.EncSpec{DataAlg: sim.AES128GCM, KeyAlg: sim.RSAOAEP, To: sim.Wide(sim.K("spenc2"), w.Now)}},
+		{"foreign-recipient-named", sim.EncSpec{DataAlg: sim.AES128GCM, KeyAlg: sim.RSAOAEP, To: w.SPEnc, Recipient: sim.Wide(sim.K("spenc2"), w.Now)}},
+		{"unknown-data-algorithm", sim.EncSpec{DataAlg: sim.AES128GCM, KeyAlg: sim.RSAOAEP, To: w.SPEnc}},
+	}
+	for k, rp := range reps {
+		cs := c.Begin("repeated-rejection", k)
+		if cs == nil {
+			continue
+		}
+		spec := rp.spec
+		ea, err := sim.EncryptedAssertionXML(&spec, []byte("<saml:Assertion xmlns:saml=\""+sim.NSA+"\" ID=\"_x\"/>"), nil, nil)
+		if err != nil {
+			cs.Inconclusive("simulator-error")
+			continue
+		}
+		if rp.name == "unknown-data-algorithm" {
+			ea = strings.Replace(ea, sim.AES128GCM, "urn:verif:no-such-algorithm", 1)
+		}
+		in := b64([]byte(unsignedResponseWith(w, ea)))
+		cs.Desc("%s, the same message %d times on one provider and on fresh ones", rp.name, 80)
+		cs.Input([]byte(trunc(ea, 1024)))
+		cs.Nontrivial(rp.name)
+		sp := cfgs[0].mk(w)
+		for i := 0; i < 80; i++ {
+			use := sp
+			if i%2 == 1 {
+				use = cfgs[0].mk(w)
+			}
+			returned, blocked := CallReturns(func() {
+				mon.Guard(func() {
+					use.ValidateEncodedResponse(in)
+					use.RetrieveAssertionInfo(in)
+				})
+			}, 20*time.Second)
+			if returned {
+				continue
+			}
+			if blocked != "" {
+				cs.Outcome("blocked")
+				cs.Violation("call-never-returns:"+rp.name, "call #%d with the same rejected message did not return; its goroutine is parked: %s", i+1, trunc(blocked, 600))
+			} else {
+				cs.Inconclusive("slow-call")
+			}
+			break
+		}
+		cs.Outcome("every-call-returned")
 	}
 
 	// ---- (b) mutations of genuine documents ----
